@@ -172,5 +172,5 @@ func (p *Point) TTL() time.Duration {
 }
 
 func (p *Point) IsExpired() bool {
-	return p.TTL() > 0
+	return p.TTL() <= 0
 }
